@@ -16,6 +16,7 @@ CONSTANTS
   StepsFirst = FALSE
   Resources = {}
   MaxLoss = 8
+  MaxAnnFail = 0
   Bystanders = {}
   Shifts = {}
 CONSTRAINT HighWater
